@@ -320,6 +320,7 @@ type world struct {
 	dtags []*dtagModel
 
 	pendingClosed map[*fakeConn]bool // closed by a trim; Disconnected not delivered yet
+	autoFlush     bool               // deliver Disconnected for every connection a trim closes right away
 
 	// flags describing the step that just ran, consumed by check()
 	decayMayTick bool
@@ -561,6 +562,9 @@ func (w *world) noteClosed(batch []closeEvent) {
 	for _, ev := range batch {
 		if w.peers[ev.c.pi].conns[ev.c] {
 			w.pendingClosed[ev.c] = true
+			if w.autoFlush {
+				w.disconnected(ev.c)
+			}
 		}
 	}
 }
@@ -715,9 +719,16 @@ func judgeBatch(cfg config, kind trimKind, now time.Time, snaps []peerSnap, batc
 			}
 		}
 	}
-	// lowest value first
+	// lowest value first. When a decay tick shares the instant of a background trim the values move
+	// under the trim's sort, whose outcome is then not determined by any single snapshot: not judged.
+	stable := true
+	for _, s := range snaps {
+		if s.vlo != s.vhi {
+			stable = false
+		}
+	}
 	for _, p := range snaps {
-		if nclosed(p) == 0 {
+		if nclosed(p) == 0 || !stable {
 			continue
 		}
 		for _, q := range snaps {
@@ -786,6 +797,17 @@ func (w *world) judge(kind trimKind, now time.Time, snaps []peerSnap, batch []cl
 		}
 	}
 	name := map[trimKind]string{trimExplicit: "explicit", trimBackground: "background", trimForce: "force"}[kind]
+	distinct := map[*fakeConn]bool{}
+	for _, ev := range batch {
+		distinct[ev.c] = true
+	}
+	if len(distinct) < len(batch) {
+		w.labels["same-conn-closed-twice-in-one-trim:"+name] = true
+	}
+	if kind == trimForce && count-len(distinct) > w.cfg.low {
+		// not part of the statement (which only bounds the eligible peers); recorded for the report
+		w.labels["force-left-total-above-low"] = true
+	}
 	switch {
 	case len(batch) > 0:
 		w.labels["trim-closed:"+name] = true
